@@ -1,18 +1,24 @@
 #!/usr/bin/env bash
 # tools/refreshseeds.sh [--in-repo] [ids...]  -- re-run the quick checks against every kept seeded change and
 # rewrite seeded/<id>/meta.json (quick_checks_against_it, caught_by).  Scratch mode runs 4 seeds side by side.
+# REFRESH_CHECKS="C01 C06" restricts the run to those checks and merges their results into the existing meta.
 cd /verif
 MODE=""; [ "${1:-}" = "--in-repo" ] && { MODE="--in-repo"; shift; }
 IDS="${*:-$(ls seeded)}"
 # build every seed against one snapshot of the harness sources taken now
 SNAP=/tmp/refresh_harness.$$; rm -rf $SNAP; cp -r /verif/harness $SNAP; export HARNESS_DIR=$SNAP; trap "rm -rf $SNAP" EXIT
-run1() { id=$1; tools/seedcheck.sh $MODE --no-confirm seeded/$id > /tmp/refresh_$id.txt 2>&1
+run1() { id=$1; tools/seedcheck.sh $MODE --no-confirm seeded/$id ${REFRESH_CHECKS:-} > /tmp/refresh_$id.txt 2>&1
   python3 - "$id" <<'PY'
 import json,re,sys
 sid=sys.argv[1]; p=f"/verif/seeded/{sid}/meta.json"; m=json.load(open(p)); checks={}
 for line in open(f"/tmp/refresh_{sid}.txt"):
     mm=re.match(r"check (C\d+): exit (\d+)\s*(.*)", line)
     if mm: checks[mm.group(1)]={"exit":int(mm.group(2)),"keys":[k for k in mm.group(3).strip().split(";") if k]}
+import os
+want=os.environ.get("REFRESH_CHECKS","").split()
+if want:
+    if sorted(checks)!=sorted(want): print(sid,"INCOMPLETE",sorted(checks)); sys.exit(1)
+    old=m.get("quick_checks_against_it",{}); old.update(checks); checks=old
 if len(checks)<17: print(sid,"INCOMPLETE",len(checks)); sys.exit(1)
 m["quick_checks_against_it"]=checks; m["caught_by"]=sorted(k for k,v in checks.items() if v["exit"]==1)
 json.dump(m,open(p,"w"),indent=1); print(sid,"caught by",m["caught_by"])
